@@ -423,6 +423,9 @@ func c17Body(sc c17Scenario, inst *c17Inst, shared map[string]bool, solo []strin
 		runtime.GC()
 	}
 	*out = s
+	if s.outside() {
+		return "unmodelled"
+	}
 	if s.deadlock != "" {
 		viol("deadlock "+sc.Name, fmt.Sprintf("%s: %s (choices %v)", sc.Name, s.deadlock, x.Choices))
 	}
@@ -461,6 +464,7 @@ func runC17(r *core.Run) {
 	}
 	instr := os.Getenv("VERIF_INSTR")
 	r.Set("instrumentation", instr)
+	schedCapRun = r.Cap
 	if instr != "full" {
 		r.Cap("instrumentation degraded (field hooks / sync shims unavailable): schedule exploration limited to load points")
 	}
